@@ -71,6 +71,8 @@ class G2:
             return r.choice(env["nums"])
         if k == "getter":
             o, et = r.choice(env["objs"])
+            if et == "xAOD::Jet" and r.random() < 0.15:
+                return f"{o}.getAttributeFloat('{r.choice(['emf', 'Width'])}')"
             return f"{o}.{r.choice(qgen.DOUBLE_METHODS)}()"
         if k == "floatgetter":
             o, et = r.choice(env["objs"])
